@@ -59,6 +59,20 @@ func (*MyErr) Error() string { return "myerr" }
 
 type MyF float64
 
+type RegMap map[int]string
+
+type Color string
+
+type Celsius float64
+
+type ErrT struct{ msg string }
+
+func (e ErrT) Error() string { return e.msg }
+
+type IntSlice []int
+
+type BytesT []byte
+
 type Iface interface{ PM() int }
 
 func (e *Env) t(tag string) { e.trace = append(e.trace, tag) }
@@ -153,6 +167,10 @@ def build(rng, scale=1):
             op = R.choice(CMP)
             g.add("bool-cmp-rooted-" + tn, "r := !(%s %s %s) == e.Fb()\n\treturn out(r)" % (a, op, b), pre)
             g.add("bool-cmp-rooted-" + tn, "r := (%s %s %s) != !(%s %s %s)\n\treturn out(r)" % (a, op, b, b, op, a), pre)
+    # simplifiable sub-expressions inside calls, literals and closures of a boolean expression
+    for c in ["gb && idb(!!gb)", "!idb(!(x == y))", "gb || func() bool { return !(x != y) }()", "gb && []bool{!(x < y)}[0]", "idb(!(x >= y)) == idb(!(f < 1))", "gb && idb(x+1 > y) || idb(x >= 1 && x < 2)",
+              "gb && idb(e.Fb() && !(x == y))", "gb && struct{ b bool }{!(x <= y)}.b"]:
+        g.add("bool-in-call", "gb := e.I0 > 0\n\t_ = gb\n\tidb := func(b bool) bool { e.t(out(\"idb\", b)); return b }\n\t_ = idb\n\tr := %s\n\treturn out(r)" % c, PRE_INT + PRE_FLT)
     g.add("bool-dneg", "r := !!e.Fb()\n\treturn out(r)")
     g.add("bool-dneg", "b0 := e.I0 > 1\n\tr := !!b0 == !(!b0)\n\treturn out(r)")
     # ---- assignOp -----------------------------------------------------------------------
@@ -191,6 +209,11 @@ def build(rng, scale=1):
     for c in ["fmt.Sprint(s)", 'fmt.Sprintf("%s", s)', 'fmt.Sprintf("%v", s)', "fmt.Sprint(Str{s})", 'fmt.Sprintf("%s", Str{t})', "fmt.Sprint(&PStr{s})", "fmt.Sprint(np)", 'fmt.Sprintf("%v", np)',
               "fmt.Sprint(e.Fs())", "fmt.Sprint(e.Err)", "fmt.Sprint(ns)"]:
         g.add("sprint", "var np *PStr\n\tvar ns fmt.Stringer\n\t_, _ = np, ns\n\tr := %s\n\treturn out(r)" % c, PRE_STR)
+    # operands of defined types (the rewritten expression must keep its type)
+    for c in ["fmt.Sprint(col)", 'fmt.Sprintf("%s", col)', 'fmt.Sprintf("%v", col)', "fmt.Sprint(et)", 'fmt.Sprintf("%v", Color(s))']:
+        g.add("sprint-defined", "col := Color(s)\n\tet := ErrT{t}\n\t_, _ = col, et\n\tvar r string = %s\n\treturn out(r)" % c, PRE_STR)
+    for c in ["len(col) == 0", "len(col) != 0", 'string(bt) == ""', "len(string(bt))", "col[:]", "bt[:]", "0 == len(col)"]:
+        g.add("idiom-defined", "col := Color(s)\n\tbt := BytesT(e.B0)\n\t_, _ = col, bt\n\tr := %s\n\treturn out(r)" % c, PRE_STR)
     # ---- valSwap ------------------------------------------------------------------------
     for a, b in [("x", "y"), ("e.I0", "e.I1"), ("e.P.A", "e.P.B"), ("e.Xs[0]", "e.Xs[1]"), ("e.Xs[e.Ti(0)]", "e.Xs[e.Ti(1)]"), ("*p", "*q")]:
         g.add("valswap", "p, q := &x, &y\n\t_, _ = p, q\n\ttmp := %s\n\t%s = %s\n\t%s = tmp\n\treturn out(x, y, e.I0, e.I1, e.P.A, e.P.B, e.Xs)" % (a, a, b, b), PRE_INT)
@@ -250,12 +273,23 @@ def build12(rng, scale=1):
     # offBy1: always panics
     for c in ["e.Xs[len(e.Xs)]", "e.B0[len(e.B0)]", "e.Ys[len(e.Ys)]", "e.P.Next.Arr[:][len(e.P.Next.Arr[:])]"]:
         g.add("offby1", "r := %s\n\treturn out(r)" % c)
+    # the same index expression over every indexable kind of operand (only slices always panic... and strings)
+    for decl, x in [("m := map[int]string{0: \"a\"}", "m"), ("m := RegMap{0: \"a\", 1: \"b\"}", "m"), ("m := RegMap{}", "m"), ("xs := IntSlice(e.Xs)", "xs"), ("xs := BytesT(e.B0)", "xs"),
+                    ("m := map[int]int{}", "m"), ("var m RegMap", "m"), ("xs := e.Xs[:0]", "xs"), ("ap := &e.P.Arr\n\txs := ap[:]", "xs"), ("type local map[int]bool\n\tm := local{2: true}", "m"),
+                    ("type lsl []string\n\txs := lsl{\"a\"}", "xs")]:
+        g.add("offby1-types", "%s\n\tr := %s[len(%s)]\n\treturn out(r)" % (decl, x, x))
     g.add("offby1-shadow", "len := func(xs []int) int { return 0 }\n\tr := e.Xs[len(e.Xs)]\n\treturn out(r)")
     # caseOrder: the case can never be reached where it stands
     for arms in [("error", "*MyErr"), ("fmt.Stringer", "Str"), ("any", "int"), ("interface{}", "nil"), ("any", "nil"), ("error", "nil"), ("Iface", "*Rec"), ("interface{ Error() string }", "*MyErr"), ("fmt.Stringer", "*PStr")]:
         g.add("caseorder", "var x any = e.Any\n\tswitch x.(type) {\n\tcase %s:\n\t\treturn \"first\"\n\tcase %s:\n\t\treturn \"second\"\n\t}\n\treturn \"none\"" % arms)
         g.add("caseorder-bind", "var x any = e.Any\n\tswitch v := x.(type) {\n\tcase %s:\n\t\treturn out(\"first\", v)\n\tcase %s:\n\t\treturn out(\"second\", v)\n\t}\n\treturn \"none\"" % arms)
     g.add("caseorder-err", "var x error = e.Err\n\tswitch x.(type) {\n\tcase error:\n\t\treturn \"first\"\n\tcase nil:\n\t\treturn \"second\"\n\t}\n\treturn \"none\"")
+    types_ = ["error", "*MyErr", "fmt.Stringer", "Str", "*PStr", "any", "nil", "int", "Iface", "*Rec", "interface{ Error() string }", "string", "interface{ PM() int; VM() int }"]
+    pairs = [(a, b) for a in types_ for b in types_ if a != b]
+    for a, b in R.sample(pairs, 40 * scale):
+        third = R.choice([t for t in types_ if t not in (a, b)])
+        # one type per clause: the arm marker of a multi-type clause could not tell which type matched
+        g.add("caseorder-rand", "var x any = e.Any\n\tswitch x.(type) {\n\tcase %s:\n\t\treturn \"first\"\n\tcase %s:\n\t\treturn \"second\"\n\tcase %s:\n\t\treturn \"third\"\n\t}\n\treturn \"none\"" % (a, b, third))
     # nilValReturn: returned value is always nil
     g.add("nilval", "fn := func(p *Rec) *Rec {\n\t\tif p == nil {\n\t\t\treturn p\n\t\t}\n\t\treturn p.Next\n\t}\n\treturn out(fn(e.P) == nil, fn(nil) == nil)")
     g.add("nilval", "fn := func(err error) error {\n\t\tif err == nil {\n\t\t\treturn err\n\t\t}\n\t\treturn nil\n\t}\n\treturn out(fn(e.Err), fn(nil))")
@@ -265,6 +299,23 @@ def build12(rng, scale=1):
     for c in ["x == x", "x != x", "x - x", "x & x", "x | x", "x < x", "x >= x", "s == s", "s != s", "e.I0 == e.I0", "e.Xs[0] == e.Xs[0]", "e.P.A - e.P.A", "gb && gb", "gb || gb", "x / x", "x % x",
               "f == f", "f != f", "f - f", "f < f", "mf == mf", "mf != mf", "mf - mf", "e.Fi() == e.Fi()", "e.Fi() - e.Fi()", "e.Ff() == e.Ff()", "(x + y) == (x + y)"]:
         g.add("dupsub", "gb := e.I0 > 0\n\tmf := MyF(e.F0)\n\t_, _ = gb, mf\n\tr := %s\n\treturn out(r)" % c, PRE_INT + PRE_FLT + PRE_STR)
+    ops = ["==", "!=", "<", "<=", ">", ">=", "-", "/", "%", "&", "|", "^", "&^", "&&", "||"]
+    opnds = [("x", "int"), ("e.I0", "int"), ("e.Xs[0]", "int"), ("e.P.A", "int"), ("f", "flt"), ("e.F0", "flt"), ("mf", "flt"), ("s", "str"), ("gb", "bool"), ("e.Fi()", "int"), ("e.Ff()", "flt"), ("e.Fs()", "str"),
+             ("e.Fb()", "bool"), ("e.Ti(x)", "int"), ("<-ch", "int"), ("u", "u8"), ("e.U8", "u8"), ("(x)", "int"), ("x + y", "int"), ("e.M[\"k\"]", "int")]
+    for _ in range(60 * scale):
+        o, t = R.choice(opnds)
+        op = R.choice(ops)
+        if (op in ("&&", "||")) != (t == "bool"):
+            continue
+        if t in ("flt", "str") and op in ("%", "&", "|", "^", "&^"):
+            continue
+        if t == "str" and op in ("-", "/"):
+            continue
+        g.add("dupsub-rand", "gb := e.I0 > 0\n\tmf := MyF(e.F0)\n\tch := make(chan int, 4)\n\tch <- 1\n\tch <- 2\n\tu := e.U8\n\t_, _, _ = gb, mf, u\n\tr := %s %s %s\n\treturn out(r)" % (o, op, o), PRE_INT + PRE_FLT + PRE_STR)
+    for _ in range(30 * scale):
+        lo, hi = sorted(R.sample([-3, 0, 1, 2, 5, 8, 9, 17], 2))
+        o = R.choice(["x", "e.I0", "e.Xs[0]", "e.Fi()", "e.Ti(x)", "<-ch", "f", "mf", "e.P.A*2", "u"])
+        g.add("badcond-rand", "mf := MyF(e.F0)\n\tch := make(chan int, 4)\n\tch <- %d\n\tch <- %d\n\tu := int(e.U8)\n\t_, _ = mf, u\n\tr := %s < %d && %s > %d\n\treturn out(r)" % (lo - 1, hi + 1, o, lo, o, hi), PRE_INT + PRE_FLT)
     # dupArg: the two arguments are the same value
     for c in ["copy(b, b)", "strings.Contains(s, s)", "bytes.Equal(b, b)", "strings.Compare(s, s)", "strings.HasPrefix(s, s)", "e.T0.Equal(e.T0)", "strings.Contains(e.Fs(), e.Fs())", "bytes.Equal(e.Fbs(), e.Fbs())",
               "strings.Index(e.S0, e.S0)", "strings.Replace(s, t, t, 1)", "strings.EqualFold(s, s)"]:
